@@ -2,7 +2,7 @@ CONSTANTS
   Pieces = {"A", "C", "G", "T"}
   MinP = 1  MaxP = 3
   Alpha = {0, 1, 2, 3}
-  MinS = 1  MaxS = 5
+  MinS = 1  MaxS = 4
   Budgets = {0, 1, 2}
   Modes = {0, 1}
   WinSet = "basic"
